@@ -319,6 +319,72 @@ reuse_segv(int sig)
         (void) sig;
         siglongjmp(reuse_jmp, 1);
 }
+/* ---------- reuse, one-shot compressor: a context (and its level buffer) that already served isal_deflate_stateless calls versus a fresh one ---------- */
+static void
+stateless_reuse(FILE *o)
+{
+        static unsigned char A[3][98304], B[40960], outA[140000], outB[60000];
+        static unsigned char lb[ISAL_DEF_LVL3_DEFAULT];
+        int level, h, lbc, i;
+        uint32_t x = 777;
+        for (i = 0; i < 98304; i++) {
+                x = x * 1664525u + 1013904223u;
+                A[0][i] = (unsigned char) (x >> 24);                       /* incompressible: falls back to stored blocks */
+                A[1][i] = "abcabcabdabcabe "[i % 16] ^ (unsigned char) (i >> 11); /* compressible */
+                A[2][i] = (unsigned char) ((x >> 28) + 'a');               /* small alphabet */
+        }
+        for (i = 0; i < 40960; i++)
+                B[i] = "reuse of a one-shot context must not show "[i % 42] ^ (unsigned char) ((i >> 9) & 3);
+        for (level = 0; level < 4; level++)
+                for (lbc = 0; lbc < 2; lbc++)
+                        for (h = 0; h < 8; h++) {
+                                struct isal_zstream *z = malloc(sizeof(*z));
+                                static const uint32_t mins[4] = { ISAL_DEF_LVL0_MIN, ISAL_DEF_LVL1_MIN, ISAL_DEF_LVL2_MIN, ISAL_DEF_LVL3_MIN };
+                                uint32_t lbs = lbc ? sizeof(lb) : mins[level];
+                                char name[64];
+                                int ret;
+                                /* history 0: fresh; 1: garbage-filled context and level buffer, then init; 2..4: one earlier call on A[h-2], re-initialised;
+                                 * 5: an earlier call that overflowed its output; 6, 7: earlier call, then isal_deflate_reset / isal_deflate_init */
+                                memset(z, h == 1 ? 0x6B : 0, sizeof(*z));
+                                memset(lb, h == 1 ? 0xB6 : 0, sizeof(lb));
+                                isal_deflate_stateless_init(z);
+                                z->level = level;
+                                z->level_buf = lb;
+                                z->level_buf_size = lbs;
+                                z->gzip_flag = IGZIP_GZIP;
+                                if (h >= 2) {
+                                        z->next_in = A[h == 5 ? 1 : h >= 6 ? h - 6 : h - 2];
+                                        z->avail_in = h == 5 ? 50000 : 98304;
+                                        z->next_out = outA;
+                                        z->avail_out = h == 5 ? 300 : sizeof(outA);
+                                        z->end_of_stream = 1;
+                                        isal_deflate_stateless(z);
+                                        /* re-initialise (2..5: isal_deflate_stateless_init, 6: isal_deflate_reset, 7: isal_deflate_init); the level buffer keeps
+                                         * whatever the earlier call left in it */
+                                        if (h == 6)
+                                                isal_deflate_reset(z);
+                                        else if (h == 7)
+                                                isal_deflate_init(z);
+                                        else
+                                                isal_deflate_stateless_init(z);
+                                        z->level = level;
+                                        z->level_buf = lb;
+                                        z->level_buf_size = lbs;
+                                        z->gzip_flag = IGZIP_GZIP;
+                                        z->flush = NO_FLUSH;
+                                }
+                                z->next_in = B;
+                                z->avail_in = sizeof(B);
+                                z->next_out = outB;
+                                z->avail_out = sizeof(outB);
+                                z->end_of_stream = 1;
+                                ret = isal_deflate_stateless(z);
+                                sprintf(name, "stateless-level%d-lbuf%d-history%d", level, lbc, h);
+                                dump(o, name, outB, ret == COMP_OK ? sizeof(outB) - z->avail_out : 0, ret);
+                                free(z);
+                        }
+}
+
 /* ---------- reuse, decompressor: (history, isal_inflate_reset) versus a fresh context, for several histories and follow-up uses ---------- */
 static size_t
 make_gzip(unsigned char *dst, size_t cap, const unsigned char *data, size_t n, int with_extra, int with_name, int with_comment, int hcrc)
@@ -681,6 +747,7 @@ main(int argc, char **argv)
         if (!strcmp(argv[1], "reuse")) {
                 FILE *o = fopen(argv[2], "w");
                 reuse(o);
+                stateless_reuse(o);
                 signal(SIGSEGV, reuse_segv);
                 signal(SIGBUS, reuse_segv);
                 inflate_reuse(o);
